@@ -13,7 +13,9 @@ Record input := { threads : list (list rcall * list nat); sched : list nat }.
 Record obs := {
   o_log : list (tid * gev);      (* acquire / release / target calls in the order they happened, with the calling thread *)
   o_sem_free : bool;             (* the semaphore's counter is 1 when every thread has stopped *)
-  o_deadlock : bool              (* some thread is unfinished and no thread can move *)
+  o_deadlock : bool;             (* some thread is unfinished and no thread can move *)
+  o_wf : list bool               (* echo of the input, computed by Coq on both sides: does thread t report well-formed
+                                    tests (wf_script)?  Only used by the comparison with the model (Corr.C12.alpha) *)
 }.
 
 (* ---------- decidable equalities on the vocabulary ---------- *)
@@ -73,8 +75,8 @@ Definition Sectioned (n : nat) (log : list (tid * gev)) : Prop :=
 
 (* ---------- clause 2: what each thread's part of the log must be ---------- *)
 (* a thread reports well-formed tests: startTest n, then tags/time, at most one outcome for n, then
-   tags/time, stopTest n; run-level tags/time and the guarded calls in between (startTestRun only
-   between tests) *)
+   tags/time, stopTest n; run-level tags/time and the guarded calls in between (startTestRun and
+   stopTestRun only between the thread's own tests; stop/done/shouldStop anywhere) *)
 Inductive phase := Out | Pre (n : nat) | Post (n : nat).
 Fixpoint wf_script (p : phase) (s : list rcall) : bool :=
   match s with
@@ -86,7 +88,7 @@ Fixpoint wf_script (p : phase) (s : list rcall) : bool :=
                         | Pre m | Post m => (m =? n) && wf_script Out r
                         | Out => false
                         end
-  | RGuard GStartRun :: r => match p with Out => wf_script Out r | _ => false end
+  | RGuard GStartRun :: r | RGuard GStopRun :: r => match p with Out => wf_script Out r | _ => false end
   | RGuard _ :: r => wf_script p r
   | RRaise :: _ => false
   end.
@@ -191,5 +193,7 @@ Fixpoint outcomes_of_script (s : list rcall) : list (kind * nat) :=
   | ROutcome k n :: r => (k, n) :: outcomes_of_script r
   | _ :: r => outcomes_of_script r
   end.
+
+Definition wf_flags (l : list (list rcall * list nat)) : list bool := map (fun sf => wf_script Out (fst sf)) l.
 
 Definition findings (i : input) : list nat := [].
